@@ -375,13 +375,15 @@ func (e *Env) mysqlSpaces(thorough bool) []*Space {
 	dbBin := e.dec("mysql.Handler.ProxyDatabaseConnection[execute response]", sess(func(in []byte) []step {
 		return []step{{false, sh.buf}, {true, hs.buf}, {true, prepQ.buf}, {false, prepResp.buf}, {true, exec.buf}, {false, in}}
 	}))
-	l = 3
+	l = 4
 	if thorough {
-		l = 4
+		l = 5
 	}
-	out = append(out, e.sigma("mysql", "mysql-packets", pktA, l+1, []*Decoder{readDec}, nil, nil)...)
-	out = append(out, e.sigma("mysql", "mysql-session-client", pktA, l, []*Decoder{cliFirst, cliCmd, cliExec}, nil, nil)...)
-	out = append(out, e.sigma("mysql", "mysql-session-db", pktA, l, []*Decoder{dbFirst, dbText, dbPrep, dbBin}, nil, nil)...)
+	out = append(out, e.sigma("mysql", "mysql-packets", pktA, l, []*Decoder{readDec}, nil, nil)...)
+	// sessions: L=3 in both tiers (a session costs about a millisecond: every packet allocates
+	// what its 3-byte length says); thorough adds the truncation product of the fields spaces
+	out = append(out, e.sigma("mysql", "mysql-session-client", pktA, 3, []*Decoder{cliFirst, cliCmd, cliExec}, nil, nil)...)
+	out = append(out, e.sigma("mysql", "mysql-session-db", pktA, 3, []*Decoder{dbFirst, dbText, dbPrep, dbBin}, nil, nil)...)
 
 	cliSeq := le()
 	myCommand(cliSeq, "ComQuery", mysql.CommandQuery, []byte("insert into t (id, s, b, tk) values (1, 'a', 'b', 'c')"))
